@@ -15,7 +15,7 @@ package object
 //@ ghost func objGeo(o ref) ref
 //@ ghost func objStr(o ref) string
 //@ ghost func objWeight(o ref) int
-//@ ghost func objFields(o ref) ref
+//@ ghost func objFields(o ref) map[string]ref
 
 //@ func Object.ID
 //@   assumed
@@ -45,3 +45,13 @@ package object
 //@   assumed
 //@   modifies nothing
 //@   ensures result.Min.X == gMinX(objGeo(o)) && result.Min.Y == gMinY(objGeo(o)) && result.Max.X == gMaxX(objGeo(o)) && result.Max.Y == gMaxY(objGeo(o))
+
+//@ func Object.Fields
+//@   assumed
+//@   modifies nothing
+//@   ensures result == objFields(o)
+// a new object is a fresh reference carrying exactly the parts it was built from
+//@ func New
+//@   assumed
+//@   modifies nothing
+//@   ensures result != nil && fresh(result) && objID(result) == id && objGeo(result) == geo && objExpires(result) == expires && objFields(result) == fields
